@@ -176,6 +176,7 @@ fn token_vectors(g: &mut Gen, st: &mut Stats) -> CaseResult {
 
 /// Drive a tokenizer over arbitrary input past every error: it must end, stay ended, and yield at most one token per byte.
 fn drive(mut t: Tokenizer<'_, '_>, input: &[u8], what: &str) -> CaseResult {
+    let _case = crate::total::case_guard("Tokenizer", input);
     verif::arm(64 * input.len() as u64 + 1024);
     let mut ok = 0usize;
     let mut total = 0usize;
